@@ -252,6 +252,7 @@ func seqIO(b *built) *histIO {
 				return nil, false, err
 			}
 			accepted = conn.ECHAccepted()
+			scribbleALPN(conn)
 			guard(func() {
 				var n int
 				n, err = conn.Read(buf)
@@ -328,6 +329,7 @@ func concIO(w *simnet.World, b *built) *histIO {
 				return nil, false, err
 			}
 			accepted = conn.ECHAccepted()
+			scribbleALPN(conn)
 			go func() { // the proxy's client->backend pump: always parked in Conn.Read
 				buf := make([]byte, 70000)
 				for {
@@ -722,4 +724,13 @@ func shrinkHistory(p *Plan) []*Plan {
 		out = append(out, q)
 	}
 	return out
+}
+
+// scribbleALPN plays an application that edits the list it was handed (sorting,
+// filtering in place): the Conn's own copy must not be affected.
+func scribbleALPN(conn *ech.Conn) {
+	a := conn.ALPNProtos()
+	for i := range a {
+		a[i] = "edited-by-the-caller"
+	}
 }
